@@ -45,7 +45,9 @@ namespace sim
             acc_begin();
             try
             {
-                rvutils::pbo::pbofile pbo{ std::filesystem::path(path) };
+                // the reading entry point: open() (the path constructor is the open-or-create used by writers)
+                rvutils::pbo::pbofile pbo;
+                pbo.open(std::filesystem::path(path));
                 good = pbo.good();
                 if (good)
                 {
@@ -65,7 +67,8 @@ namespace sim
                         rvutils::pbo::pbofile::reader rd;
                         if (pbo.read(f.name, rd))
                         {
-                            size_t want = std::min<size_t>(rd.descriptor().size, 1 << 20);
+                            // ask for more than the entry holds: the reader must stop at the end of the entry
+                            size_t want = std::min<size_t>(rd.descriptor().size, 1 << 20) + 64;
                             std::string buf;
                             buf.resize(want);
                             size_t n = rd.read(buf.data(), (std::streamsize)want);
